@@ -7,6 +7,16 @@ struct ArmG {
     irrefutable: bool,
 }
 
+fn strip_refs(e: &Expr) -> &Expr {
+    match e {
+        Expr::Paren(p) => strip_refs(&p.expr),
+        Expr::Group(p) => strip_refs(&p.expr),
+        Expr::Reference(r) => strip_refs(&r.expr),
+        Expr::Unary(u) if matches!(u.op, UnOp::Deref(_)) => strip_refs(&u.expr),
+        _ => e,
+    }
+}
+
 fn assemble_match(scrut: &G, arms: &[ArmG]) -> Result<G, String> {
     let mut out = Vec::new();
     for (i, a) in arms.iter().enumerate() {
@@ -368,8 +378,18 @@ impl<'u> Tr<'u> {
                 (Some(_), None) => parts.push("_".into()),
                 (None, None) => {}
                 (None, Some(p)) => {
-                    // omitted field: whatever it binds cannot be used
-                    self.poison_pattern(p, env, &format!("bound to an omitted field of {en}::{}", v.name), sp)?;
+                    // omitted field: whatever it binds cannot be used (a probe may name it as its receiver: then the
+                    // binding must carry the field's own name, so that the receiver text says which field is asked)
+                    let renamed = match (p, &f.name) {
+                        (Pat::Ident(i), Some(fname)) => i.ident != fname.as_str(),
+                        _ => false,
+                    };
+                    let why = if renamed {
+                        format!("bound under another name to the omitted field `{}` of {en}::{}", f.name.clone().unwrap_or_default(), v.name)
+                    } else {
+                        format!("bound to an omitted field of {en}::{}", v.name)
+                    };
+                    self.poison_pattern(p, env, &why, sp)?;
                 }
             }
         }
@@ -697,6 +717,9 @@ impl<'u> Tr<'u> {
     fn method_call(&mut self, m: &syn::ExprMethodCall, env: &Env, hint: Option<&Ty>) -> R<(G, Ty)> {
         let sp = m.span();
         let whole = Expr::MethodCall(m.clone());
+        if let Some(r) = self.try_probe(m, env)? {
+            return Ok(r);
+        }
         if let Some(r) = self.try_view_path(&whole, env) {
             return Ok(r);
         }
@@ -756,6 +779,32 @@ impl<'u> Tr<'u> {
                 let (f, t) = self.closure1(args[0], inner, env, None)?;
                 Ok((app("List.map", vec![f, recv]), Ty::List(Box::new(t))))
             }
+            (Ty::List(inner), "any", 1) | (Ty::List(inner), "all", 1) => {
+                let (f, t) = self.closure1(args[0], inner, env, Some(&Ty::Bool))?;
+                if t != Ty::Bool {
+                    return self.err(sp, format!("`{name}` with a closure that does not return a boolean"));
+                }
+                Ok((app(if name == "any" { "List.existsb" } else { "List.forallb" }, vec![f, recv]), Ty::Bool))
+            }
+            (Ty::Str, "to_owned", 0) | (Ty::Str, "to_string", 0) | (Ty::Str, "as_str", 0) => Ok((recv, Ty::Str)),
+            // `s.starts_with("lit")`: the literal is a prefix of s (Coq's String.prefix)
+            (Ty::Str, "starts_with", 1) if matches!(args[0], Expr::Lit(syn::ExprLit { lit: Lit::Str(_), .. })) => {
+                let (a, _) = self.expr(args[0], env, Some(&Ty::Str))?;
+                Ok((app("String.prefix", vec![a, recv]), Ty::Bool))
+            }
+            // `s.split_once('c')`: (before, after) the first occurrence of the ASCII character c
+            (Ty::Str, "split_once", 1) => {
+                let c = match args[0] {
+                    Expr::Lit(syn::ExprLit { lit: Lit::Char(c), .. }) if c.value().is_ascii() && !c.value().is_ascii_control() => c.value(),
+                    _ => return self.err(sp, "`split_once` with a pattern other than a printable ASCII character literal"),
+                };
+                let h = self.ensure_str_split_once();
+                // (the constructor of Coq's ascii, least significant bit first: independent of notation scopes)
+                let code = c as u32;
+                let bits: Vec<&str> = (0..8).map(|i| if (code >> i) & 1 == 1 { "true" } else { "false" }).collect();
+                let lit = format!("(Ascii.Ascii {})", bits.join(" "));
+                Ok((app(&h, vec![raw(lit), recv]), Ty::Option(Box::new(Ty::Tuple(vec![Ty::Str, Ty::Str])))))
+            }
             (Ty::Option(_), "is_some", 0) => Ok((
                 G::Match(Box::new(recv), vec![("Some _".into(), raw("true")), ("None".into(), raw("false"))]),
                 Ty::Bool,
@@ -803,6 +852,109 @@ impl<'u> Tr<'u> {
             }
             _ => self.err(sp, format!("unsupported method `{name}` on a value of type {}", rt.coq())),
         }
+    }
+
+    /// the innermost function being translated (`Type::method` / `function`)
+    fn cur_fn_key(&self) -> Option<String> {
+        self.in_progress.iter().rev().find_map(|t| t.strip_prefix("fn ").map(|s| s.to_owned()))
+    }
+
+    /// `str_split_once c s`: the translation of `s.split_once(c)` for an ASCII character c (bytes of a UTF-8 string:
+    /// an ASCII byte never occurs inside a multi-byte sequence)
+    fn ensure_str_split_once(&mut self) -> String {
+        let f = "str_split_once".to_owned();
+        if !self.helpers.contains(&f) {
+            self.helpers.insert(f.clone());
+            let text = "Definition str_split_once (c : Ascii.ascii) : string -> option (string * string) :=\n  fix go (s : string) : option (string * string) :=\n    match s with\n    | EmptyString => None\n    | String a r =>\n        if Ascii.eqb a c then Some (EmptyString, r)\n        else match go r with\n             | Some (k, v) => Some (String a k, v)\n             | None => None\n             end\n    end.".to_owned();
+            self.emit(&f, text, "str::split_once(char): before / after the first occurrence".to_owned());
+        }
+        f
+    }
+
+    /// a method call the spec declares as a probe (see `Probe`): its value is an input `p_<name>` of the function
+    /// being translated
+    fn try_probe(&mut self, m: &syn::ExprMethodCall, env: &Env) -> R<Option<(G, Ty)>> {
+        if self.spec.probes.is_empty() {
+            return Ok(None);
+        }
+        let cur = match self.cur_fn_key() {
+            Some(k) => k,
+            None => return Ok(None),
+        };
+        let method = m.method.to_string();
+        let cands: Vec<Probe> =
+            self.spec.probes.iter().filter(|p| p.method == method && p.in_fn.iter().any(|f| *f == cur)).cloned().collect();
+        if cands.is_empty() {
+            return Ok(None);
+        }
+        let recv_text = norm(strip_refs(&m.receiver));
+        let args_text = m.args.iter().map(|a| norm(a)).collect::<Vec<_>>().join(",");
+        let sp = m.span();
+        for p in &cands {
+            let mut recv_g: Option<(G, Ty)> = None;
+            let hit = match (&p.recv, &p.recv_type) {
+                (Some(r), _) => r.replace(' ', "") == recv_text,
+                (None, Some(rt)) => match self.expr(&m.receiver, env, None) {
+                    Ok((g, t)) => {
+                        let ok = matches!(&t, Ty::Token(n) | Ty::Enum(n) | Ty::Struct(n) if n == rt);
+                        if ok {
+                            recv_g = Some((g, t));
+                        }
+                        ok
+                    }
+                    Err(_) => false,
+                },
+                _ => false,
+            };
+            if !hit {
+                continue;
+            }
+            if let Expr::Path(rp) = strip_refs(&m.receiver) {
+                if let Some(b) = rp.path.get_ident().and_then(|i| env.lookup(&i.to_string())) {
+                    if let Some(why) = &b.poisoned {
+                        if why.starts_with("bound under another name") {
+                            return self.err(sp, format!("the receiver `{recv_text}` of the probe `{}` is {why}", p.name));
+                        }
+                    }
+                }
+            }
+            let vt: Type = match syn::parse_str(&p.ty) {
+                Ok(t) => t,
+                Err(e) => return self.err(sp, format!("probe `{}`: type `{}`: {e}", p.name, p.ty)),
+            };
+            let vt = self.ty(&vt, env.self_ty.as_deref())?;
+            let key = format!("probe:{}", p.name);
+            let site = format!("{key}@{args_text}");
+            let pname = format!("p_{}", p.name);
+            let full_ty = match &recv_g {
+                Some((_, rt)) => Ty::Fun(Box::new(rt.clone()), Box::new(vt.clone())),
+                None => vt.clone(),
+            };
+            let prev = self.opaque.iter().find(|(k, _, _)| k.starts_with(&format!("{key}@"))).map(|(k, _, _)| k.clone());
+            match prev {
+                Some(k) if k != site && !k.contains("@via ") => {
+                    return self.err(sp, format!("the probe `{}` is asked with different arguments (`{}` and `{}`)", p.name, &k[key.len() + 1..], args_text));
+                }
+                Some(_) => {}
+                None => {
+                    self.opaque.push((site, pname.clone(), full_ty));
+                    self.notes.push(match &p.recv {
+                        Some(r) => format!(
+                            "probe: the value of `{r}.{method}({args_text})` in {cur} is the input `{pname}` of the generated function (sites with the same receiver text, method and arguments share it; the callee is not translated)"
+                        ),
+                        None => format!(
+                            "probe: the value of `<{}>.{method}({args_text})` in {cur} is the input function `{pname}` applied to the receiver (the callee is not translated)",
+                            p.recv_type.clone().unwrap_or_default()
+                        ),
+                    });
+                }
+            }
+            return Ok(Some(match recv_g {
+                Some((g, _)) => (app(&pname, vec![g]), vt),
+                None => (raw(pname), vt),
+            }));
+        }
+        Ok(None)
     }
 
     /// `self.m(args)` declared under opaque_calls: its value is an input of the function being
@@ -873,7 +1025,7 @@ impl<'u> Tr<'u> {
         }
         let mut out = Vec::new();
         for (okey, n, t) in &fi.opaque {
-            let is_const = self.spec.opaque_consts.iter().any(|k| k == okey) || okey == "unreachable!";
+            let is_const = self.spec.opaque_consts.iter().any(|k| k == okey) || okey == "unreachable!" || okey.starts_with("probe:");
             let present = self.opaque.iter().any(|(k, _, _)| k.starts_with(&format!("{okey}@")));
             if present && !is_const {
                 return self.err(sp, format!("the opaque call `{okey}` is reached more than once (through `{key}`)"));
